@@ -266,6 +266,8 @@ class Slicer:
         Raises:
             ValueError: Shape or size doesn't match.
         """
+        if isinstance(values, np.ndarray) and isinstance(self.slices, list):
+            values = list(values.flatten())
         if isinstance(values, list):
             if len(values) != len(self.slices):
                 raise ValueError("Shape or size of values doesn't match.")
